@@ -189,9 +189,9 @@ example : getObjectPath exEnv [98, 107] [46, 46, 47, 120] = .error .invalidArgum
 example : getObjectPath exEnv [98, 107] [47, 120] = .error .invalidArgument := by rfl
 example : getObjectPath exEnv [98, 107] [46] = .error .invalidArgument := by rfl
 example : getObjectPath exEnv [97, 47, 98] [120] = .error .invalidBucketName := by rfl
-/-- the tables are not empty: `copy_object bk/a/b → bk/c` has 9 entries and no input error, `get_object` has 4 -/
+/-- the tables are not empty: `copy_object bk/a/b → bk/c` has 16 entries and no input error, `get_object` has 4 -/
 example : ((plan exEnv id (.copyObject false [98, 107] [97, 47, 98] [98, 107] [99])).touches.length,
-    (plan exEnv id (.copyObject false [98, 107] [97, 47, 98] [98, 107] [99])).err) = (9, none) := by rfl
+    (plan exEnv id (.copyObject false [98, 107] [97, 47, 98] [98, 107] [99])).err) = (16, none) := by rfl
 example : (plan exEnv id (.getObject [98, 107] [97, 47, 98])).touches.length = 4 := by rfl
 example : bucketNameFirstOk [98, 107] = true := by decide
 /-- `a/../../x` is clamped at the root: `/r/x`; an absolute path outside the root is refused -/
